@@ -8,7 +8,8 @@
 From Coq Require Import List NArith.
 From stdpp Require Import gmap.
 From RaftModel Require Import Base Config Commitment Node NodeCodec Leader Cluster ClusterLog ClusterCommit.
-From RaftProofs Require Import CommitmentProofs LeaderProofs AppendProofs VoteProofs ClusterCommitSpec ClusterCommitMain ClusterCommitLog ClusterCommitAcks2 ClusterProofs.
+From RaftProofs Require Import CommitmentProofs LeaderProofs AppendProofs VoteProofs ClusterCommitSpec ClusterCommitMain ClusterCommitLog ClusterCommitAcks2 ClusterProofs
+  ClusterCommitSnapSpec ClusterCommitSnapMain ClusterCommitSnapAcks ClusterCommitSnapCex.
 Open Scope N_scope.
 
 (* current-term rule at the call site: a new leader's commitment starts above everything its log
@@ -92,3 +93,24 @@ Theorem C03_acknowledged_entries_are_permanent : forall cfg g0 ls g,
   acks_permanent (run_acks false [cfg] g0 ls) g.
 Proof. exact acknowledged_entries_are_permanent. Qed.
 Print Assumptions C03_acknowledged_entries_are_permanent.
+
+
+(* WITH takeSnapshot + compaction (crun true): a later leader holds every committed / acknowledged entry
+   in its log OR the index is covered by its own snapshot (with TrailingLogs 0 a leader's whole log can be
+   compacted away: C03_compaction_refutes_plain_leader_completeness). *)
+Theorem C03_leader_completeness_all_runs_with_snapshots : forall cfg g0 ls g,
+  cinit_snap_ok cfg g0 -> Forall label_ok ls -> crun true [cfg] g0 ls = Some g ->
+  leader_complete_snap g.
+Proof. intros cfg g0 ls g H0 Hl Hr. destruct (state_machine_safety_snapshots cfg g0 ls g H0 Hl Hr) as (_ & A & _). exact A. Qed.
+Print Assumptions C03_leader_completeness_all_runs_with_snapshots.
+
+Theorem C03_acknowledged_entries_are_permanent_with_snapshots : forall cfg g0 ls g,
+  cinit_snap_ok cfg g0 -> Forall label_ok ls -> crun true [cfg] g0 ls = Some g ->
+  acks_permanent_snap (run_acks true [cfg] g0 ls) g.
+Proof. exact acknowledged_entries_are_permanent_snapshots. Qed.
+Print Assumptions C03_acknowledged_entries_are_permanent_with_snapshots.
+
+Theorem C03_compaction_refutes_plain_leader_completeness : exists cfg g0 ls g,
+  cinit_snap_ok cfg g0 /\ Forall label_ok ls /\ crun true [cfg] g0 ls = Some g /\
+  ~ leader_complete g /\ leader_complete_snap g /\ log_size g 1 = 0%nat /\ snap_idx g 1 = 3.
+Proof. exact compaction_refutes_leader_complete. Qed.
